@@ -815,7 +815,40 @@ func (w *ttWriter) nl(depth int) {
 }
 
 func (w *ttWriter) br() string {
+	if w.r.chance(1, 8) {
+		ttFree("linebreak_in_tag.br")
+		return w.r.pick("<"+w.el+"br\n/>", "<"+w.el+"br\n   />", "<"+w.el+"br\n></"+w.el+"br\n >")
+	}
 	return w.r.pick("<"+w.el+"br/>", "<"+w.el+"br/>", "<"+w.el+"br />", "<"+w.el+"br></"+w.el+"br>")
+}
+
+// tagGap: the white space before an attribute or before the closing > of a tag: a blank, or a line break with indentation
+func (w *ttWriter) tagGap(attrs string) string {
+	if attrs == "" || !w.r.chance(1, 6) {
+		return attrs
+	}
+	ttFree("linebreak_in_tag.attributes")
+	// attr() writes " name=value": replace the separating blanks that are not inside a value
+	var b strings.Builder
+	var q byte
+	for i := 0; i < len(attrs); i++ {
+		c := attrs[i]
+		switch {
+		case q != 0:
+			if c == q {
+				q = 0
+			}
+			b.WriteByte(c)
+		case c == '"' || c == '\'':
+			q = c
+			b.WriteByte(c)
+		case c == ' ' && w.r.chance(2, 3):
+			b.WriteString(w.r.pick("\n", "\n    ", "\n\t", " \n "))
+		default:
+			b.WriteByte(c)
+		}
+	}
+	return b.String()
 }
 
 // per-freedom counters of the renderer (moved into the runner's distribution by the suite)
@@ -1052,10 +1085,11 @@ func (w *ttWriter) renderContent(cu ttCue) {
 			} else {
 				indent("")
 				w.b.WriteString("<" + w.el + "span")
+				sa := ""
 				if run.Style != nil {
-					w.b.WriteString(w.attr("style", *run.Style))
+					sa = w.attr("style", *run.Style)
 				}
-				w.b.WriteString(w.attrs(run.A) + ">")
+				w.b.WriteString(w.tagGap(sa+w.attrs(run.A)) + w.r.pick("", "", "", "\n") + ">")
 				w.b.WriteString(w.escText(run.Text))
 				open = true
 			}
